@@ -92,17 +92,28 @@ fn timeout_handler(data: TimerData) {
     // remove the event timer
     event_data.timer.borrow_mut().take();
 
+    // `subscribe` arms the timer before it publishes the coroutine, so the timer can expire
+    // in between and find nothing here. leave a mark for the `io_flag` re-check that follows
+    // the publishing: the coroutine is re-run and retries the io with a fresh timer,
+    // otherwise the timeout would be lost and the io could block forever
+    event_data.io_flag.fetch_or(TIMEOUT_FLAG, Ordering::Release);
+
     // get and check the coroutine
     let mut co = match event_data.co.take() {
         Some(co) => co,
         None => return,
     };
+    event_data.io_flag.fetch_and(!TIMEOUT_FLAG, Ordering::Relaxed);
 
     set_co_para(&mut co, io::Error::new(io::ErrorKind::TimedOut, "timeout"));
 
     // resume the coroutine with timeout error
     run_coroutine(co);
 }
+
+// `io_flag` bit set by an expired io timer, no kernel event uses it
+#[cfg(feature = "io_timeout")]
+const TIMEOUT_FLAG: usize = 1 << (usize::BITS - 1);
 
 // the timeout data
 #[cfg(feature = "io_timeout")]
